@@ -93,7 +93,23 @@ func (w *walker) expr(e ast.Expr) {
 	case nil:
 	case *ast.CallExpr:
 		if _, hn := lastSel(x.Fun); hn == "vhook" || hn == "vhookTask" {
-			return // verification hooks leave no trace in a skeleton, whatever their arguments
+			// verification hooks leave no trace in a skeleton; their arguments may call the name / path accessors
+			// only — any other call inside a hook's arguments is walked like everywhere else
+			for _, a := range x.Args {
+				pure := true
+				ast.Inspect(a, func(n ast.Node) bool {
+					if c, ok := n.(*ast.CallExpr); ok {
+						if _, fn := lastSel(c.Fun); fn != "Name" && fn != "Path" && fn != "FifoPath" && fn != "TempDir" {
+							pure = false
+						}
+					}
+					return true
+				})
+				if !pure {
+					w.expr(a)
+				}
+			}
+			return
 		}
 		w.expr(x.Fun)
 		for _, a := range x.Args {
